@@ -285,9 +285,11 @@ func (p *ParserZH) lineIndent(idx int) int {
 	if lineInfo == nil {
 		return 0
 	}
-	for idx > 0 && lineInfo.Continued {
-		idx--
-		lineInfo = p.GetLineInfo(idx)
+	if lineInfo.Continued {
+		// (recorded when the line was met: no walk back over a text of many lines)
+		if base := p.GetLineInfo(lineInfo.BaseLine); base != nil {
+			return base.Indents
+		}
 	}
 	return lineInfo.Indents
 }
